@@ -321,7 +321,7 @@ def summarize(results, tier):
         "rule": "one case = one generated program normalised and typed by Polar under a swarm-chosen type_fp_iterations, then its "
                 "normalised IR executed 8-20 times for 3-12 iterations under scripted resolutions; distinct = distinct program text; "
                 "non-trivial = at least one variable received an inferred finite type and at least one (variable, value) was observed",
-        "samples": samples,
+        "samples": samples or [{"note": "no sample recorded"}],
         "outcomes": dict(oc),
         "distinct_programs_executed": len(progs),
         "ir_executions": execs,
